@@ -99,12 +99,13 @@ def parseInnerPlain (s : String) : Option Inner :=
   else none
 
 /-- `ctx+<kind>`: the authenticator returns a non-nil context TOGETHER with that error; only the error
-counts (`authenticate` tests `err != nil`), so it is the same refusal. -/
+counts for the gate (`authenticate` tests `err != nil`); the harness' context is the authenticated
+principal `introspector`. -/
 def parseInner (s : String) : Option Inner :=
   if s.startsWith "ctx+" then
     (if (s.drop 4).toString = "nilnil" then none else
       match parseInnerPlain (s.drop 4).toString with
-      | some (.reject k) => some (.reject k)
+      | some (.reject k) => some (.rejectCtx k introspector)
       | _ => none)
   else parseInnerPlain s
 
